@@ -1164,7 +1164,7 @@ impl HashColumn {
 		Ok(address.as_u64())
 	}
 
-	fn check_children_count(node: &NewNode) -> Result<()> {
+	pub(crate) fn check_children_count(node: &NewNode) -> Result<()> {
 		if node.children.len() > u8::MAX as usize {
 			return Err(Error::InvalidInput(format!(
 				"Tree node with {} children: at most {} are supported",
